@@ -701,7 +701,7 @@ func (g *g) wordParts(pieces []Piece, label string, first, value bool) ([]string
 			g.f("word:param")
 			continue
 		case 6: // ${...}
-			txt, sk := g.bracedParam()
+			txt, sk := g.bracedParam(false)
 			add(txt)
 			ps = append(ps, sk)
 			g.f("word:braced_param")
@@ -810,7 +810,7 @@ func (g *g) dquote() (string, string) {
 			openName = isNameStart(nm)
 			continue
 		case 5:
-			txt, sk := g.bracedParam()
+			txt, sk := g.bracedParam(true)
 			flush()
 			b.WriteString(txt)
 			ps = append(ps, sk)
@@ -836,7 +836,11 @@ func (g *g) dquote() (string, string) {
 
 var paramOps = []string{":-", "-", ":=", "=", ":?", "?", ":+", "+", "%", "%%", "#", "##"}
 
-func (g *g) bracedParam() (string, string) {
+// bracedParam generates "${...}". dq: it stands inside double-quotes, where
+// the word of every operator but % %% # ## is double-quoted text as well (a
+// single-quote is an ordinary character and a backslash escapes only
+// $ ` " \ } and a newline).
+func (g *g) bracedParam(dq bool) (string, string) {
 	nm := g.pick("bp_name", "x", "foo", "_v", "é", "1", "10", "@", "*", "#", "?", "-", "$", "!", "0")
 	switch g.ch.Intn(4, "bp_form") {
 	case 0:
@@ -859,6 +863,10 @@ func (g *g) bracedParam() (string, string) {
 		}
 	}
 	openName := false
+	dq = dq && !strings.ContainsAny(op, "%#")
+	if dq {
+		g.f("dquoted_param_word")
+	}
 	n := []int{1, 0, 2, 3}[g.ch.Intn(4, "bp_n")]
 	for i := 0; i < n; i++ {
 		k := g.ch.Intn(7, "bp_kind")
@@ -883,6 +891,25 @@ func (g *g) bracedParam() (string, string) {
 			continue
 		case 1:
 			w := g.pick("bp_sq", "q", "a b", "}", "", "$x")
+			if dq {
+				// the quotes are text, what stands between them is not quoted
+				w = g.pick("bp_sq_dq", "q", "a b", `\}`, "", ";|")
+				b.WriteString("'")
+				lit += "'"
+				if w == `\}` {
+					flush()
+					b.WriteString(w)
+					ps = append(ps, skel.Quote(`\`, []string{skel.Lit("}")}))
+				} else {
+					b.WriteString(w)
+					lit += w
+				}
+				b.WriteString("'")
+				lit += "'"
+				openName = false
+				g.f("literal_squote_in_dquoted_param_word")
+				continue
+			}
 			flush()
 			b.WriteString("'" + w + "'")
 			ps = append(ps, skel.Quote("'", []string{skel.Lit(w)}))
@@ -895,6 +922,13 @@ func (g *g) bracedParam() (string, string) {
 			continue
 		case 3:
 			c := g.pick("bp_bs", "}", `\`, "$", "a", " ")
+			if dq && (c == "a" || c == " ") {
+				b.WriteString(`\` + c)
+				lit += `\` + c
+				openName = false
+				g.f("literal_backslash_in_dquoted_param_word")
+				continue
+			}
 			flush()
 			b.WriteString(`\` + c)
 			ps = append(ps, skel.Quote(`\`, []string{skel.Lit(c)}))
@@ -1127,7 +1161,7 @@ func (g *g) heredoc(n string) string {
 	}
 	nl := []int{1, 2, 0, 3, 4}[g.ch.Intn(5, "hd_lines")]
 	for i := 0; i < nl; i++ {
-		k := g.ch.Intn(16, "hd_line")
+		k := g.ch.Intn(17, "hd_line")
 		line := ""
 		if k == 14 && h.Quoted {
 			k = 0
@@ -1223,6 +1257,14 @@ func (g *g) heredoc(n string) string {
 			lit += "cont" + delim + "\n"
 			line = "cont\\\n" + delim
 			g.f("heredoc_continuation_before_delimiter_lookalike")
+		case 16:
+			// the body is read like double-quoted text, and so is the word of
+			// an expansion in it
+			flush()
+			ps = append(ps, skel.Param(true, "x", ":-", skel.Word([]string{skel.Lit(`'q' \a`)})))
+			lit += "\n"
+			line = `${x:-'q' \a}`
+			g.f("literal_squote_in_dquoted_param_word")
 		}
 		body.WriteString(line + "\n")
 	}
